@@ -1,13 +1,21 @@
 (* Bridge of harness/cmd/trC02 (property C02): the synchronisation skeleton of
-   core/schedule/do_at.go - which shared accesses Next / Start / Left make, in which order, which of
+   core/schedule/do_at.go and unlilmited.go - which shared accesses Next / Start / Left make, in which order, which of
    them inside s.startOnce.Do - re-read from the source on every run into Gen/SchedSyncGen.v, IS the
-   program [doat_progs] that Properties/C02_leaf.v is about; start_sync.go's MarkStarted is the
+   programs [doat_progs] / [unl_progs] that Properties/C02_leaf.v is about; start_sync.go's MarkStarted is the
    swap-and-panic and IsStarted the atomic load the model takes them for.  If the source drifts (an
    access moved out of the Once, a fast path around it, another order of MarkStarted and the store of
    the start time) this lemma no longer checks. *)
 From Coq Require Import List.
 From PV Require Import Model.SchedLeafConc Gen.SchedSyncGen.
 Import ListNotations.
+
+(* unlilmited.go: the store of the finish time comes BEFORE MarkStarted inside the Once of Next, after
+   the Once in Start; Left looks at the flag first *)
+Lemma bridge_unl_sync :
+  {| p_next := gen_unl_next; p_start := gen_unl_start; p_left := gen_unl_left |} = unl_progs /\
+  gen_unl_fields_ok = true.
+Proof. split; reflexivity. Qed.
+Print Assumptions bridge_unl_sync.
 
 Lemma bridge_doat_sync :
   {| p_next := gen_doat_next; p_start := gen_doat_start; p_left := gen_doat_left |} = doat_progs /\
